@@ -142,17 +142,16 @@ prop("C01", ready=True, level="other",
          "ignored, no ACKNACK where RTPS requires none; (4) the same step with a buffered fragment: the ACKNACK set is cut below a "
          "partially received sample and a NACK_FRAG with the 1-based missing fragment numbers and a count > 0 is appended; a fragment "
          "whose sample stopped being missing (GAP / firstSN moved past it) hides nothing; (5) GAP step - a GAP adjacent to the received "
-         "prefix extends available_changes_max exactly to the end of the gap. Defects found by these checks and repaired in /repo "
+         "prefix extends available_changes_max exactly to the end of the gap, a GAP that starts beyond the next expected change leaves "
+         "the earlier changes missing (they are named by the next ACKNACK). Four defects were found by these checks and repaired in /repo "
          "(recorded as fixed, nothing suppressed): a stale buffered fragment emptied every later ACKNACK (fix 1d5179c); NACK_FRAG count "
-         "never incremented (fix d91489d); NACK_FRAG fragment numbers used as 0-based indices (fix 6b815dc). OPEN finding decided by the "
-         "solver, KF-C01-2: a GAP that starts beyond the next expected change raises the single received-watermark over the still-missing "
-         "changes before it, which are then acknowledged, never requested and never presented (one lost DATA datagram followed by a GAP "
-         "loses a sample the writer still holds). The two reading notes of the design were checked: `!missing_changes().count() == 0` is "
+         "never incremented (fix d91489d); NACK_FRAG fragment numbers used as 0-based indices (fix 6b815dc); a GAP beyond the next "
+         "expected change raised the received-watermark over still-missing changes, which were then acknowledged and never presented "
+         "(fix 1d4869a). The two reading notes of the design were checked: `!missing_changes().count() == 0` is "
          "a dead disjunct (ACKNACKs are driven by must_send_acknacks, set correctly by the HEARTBEAT glue) and is NOT a violation; the GAP "
          "branch of write_message_reliable advancing highest_sent over the first post-gap change could not be executed (writer side out "
          "of reach) - by code reading the skipped change is announced by the HEARTBEAT sent in the same datagram and requested by the next "
-         "ACKNACK, i.e. it heals in one round and is not a violation of the statement (but it is exactly the datagram shape - GAP ahead of "
-         "a not yet delivered DATA - that triggers KF-C01-2 when that DATA or an earlier one is lost)."),
+         "ACKNACK, i.e. it heals in one round and is not a violation of the statement."),
      bounds=("safety step and kernel: sequence numbers over full i64 (below i64::MAX-16), payload 0..=3 symbolic bytes, optional 16-byte key "
              "hash; request steps: sequence numbers <= 1000, <= 4 missing changes, <= 1 buffered fragment of a 2-fragment sample, counts full "
              "i32; one matched writer per reader"),
